@@ -8,6 +8,8 @@ package main
 
 import (
 	"bytes"
+	"net"
+	"time"
 	"encoding/binary"
 	"encoding/json"
 	"fmt"
@@ -26,6 +28,155 @@ type c01Job struct {
 	Rotations int  `json:"rotations"` // offset = 2016*rotations
 	D         int  `json:"d"`         // now - offset
 	Full      bool `json:"full"`      // full alphabet or the reduced sweep alphabet
+	Transport bool `json:"transport"` // conformance subset through the real UDP socket
+}
+
+// c01Transport sends a subset of the alphabet through the server's real UDP
+// socket. Handlers run asynchronously, so datagrams target distinct slots
+// (order-free outcome), a final marker report is awaited (bounded; a time-out
+// makes the sub-check inconclusive, never a violation), and the state is read
+// after Close(), which waits for every handler.
+func c01Transport() (rep *jobReport) {
+	rep = &jobReport{Reasons: map[string]int{}}
+	w, err := newStdWorld("c01udp")
+	if err != nil {
+		rep.fail("harness/setup", err.Error())
+		return
+	}
+	w.setNow(1000)
+	_, _, udp := w.S.Ports()
+	addr := fmt.Sprintf("127.0.0.1:%d", udp)
+	conn, err := net.Dial("udp", addr)
+	if err != nil {
+		rep.fail("harness/dial", err.Error())
+		return
+	}
+	defer conn.Close()
+	type tc struct {
+		desc string
+		b    []byte
+	}
+	var cases []tc
+	slot := uint32(900)
+	next := func() uint32 { slot++; return slot }
+	valid := func() []byte { return signedReport(1, next(), 500, w.A.Priv) }
+	cases = append(cases, tc{"valid 80 bytes", valid()})
+	cases = append(cases, tc{"valid leading 80 bytes + 1", append(valid(), 0)})
+	cases = append(cases, tc{"valid leading 80 bytes + 120", append(valid(), bytes.Repeat([]byte{7}, 120)...)})
+	for _, l := range []int{0, 1, 16, 40, 79} {
+		cases = append(cases, tc{fmt.Sprintf("valid report cut to %d bytes", l), valid()[:l]})
+	}
+	for _, bit := range []int{0, 31, 32, 63, 64, 127, 128, 383, 384, 639} {
+		b := valid()
+		b[bit/8] ^= 1 << (bit % 8)
+		cases = append(cases, tc{fmt.Sprintf("bit %d flipped", bit), b})
+	}
+	cases = append(cases, tc{"signed by device B", signedReport(1, next(), 500, w.B.Priv)})
+	cases = append(cases, tc{"signed by the GCA", signedReport(1, next(), 500, w.GCA.Priv)})
+	cases = append(cases, tc{"banned device", signedReport(3, next(), 500, w.X.Priv)})
+	cases = append(cases, tc{"unknown device", signedReport(9, next(), 500, w.A.Priv)})
+	cases = append(cases, tc{"sentinel 0", signedReport(1, next(), 0, w.A.Priv)})
+	cases = append(cases, tc{"sentinel 1", signedReport(1, next(), 1, w.A.Priv)})
+	cases = append(cases, tc{"now+432", signedReport(1, 1432, 500, w.A.Priv)})
+	cases = append(cases, tc{"now+433", signedReport(1, 1433, 500, w.A.Priv)})
+	cases = append(cases, tc{"now-432", signedReport(1, 568, 500, w.A.Priv)})
+	cases = append(cases, tc{"now-433", signedReport(1, 567, 500, w.A.Priv)})
+	for i := 0; i < 6; i++ {
+		cases = append(cases, tc{"valid 80 bytes", valid()})
+	}
+	for _, c := range cases {
+		if len(c.b) == 0 {
+			conn.Write([]byte{}) // an empty datagram is a datagram
+		} else {
+			conn.Write(c.b)
+		}
+		w.M.datagram(c.b, w.Now)
+		rep.Evals++
+		time.Sleep(200 * time.Microsecond)
+	}
+	marker := signedReport(2, 1000, 5, w.B.Priv)
+	conn.Write(marker)
+	w.M.datagram(marker, w.Now)
+	deadline := time.Now().Add(5 * time.Second)
+	seen := false
+	for !seen && time.Now().Before(deadline) {
+		for _, sl := range w.S.VerifSnapshot().Reports[2] {
+			if sl.Index == 1000 {
+				seen = true
+			}
+		}
+		if !seen {
+			time.Sleep(time.Millisecond)
+		}
+	}
+	if p := safely(func() { w.Close() }); p != "" {
+		rep.fail("close-panic", firstLine(p))
+		return
+	}
+	defer w.Cleanup()
+	if !seen {
+		rep.Reasons["inconclusive: marker datagram not seen within 5 s"]++
+		return
+	}
+	// after Close every handler has finished
+	snap := w.S.VerifSnapshot()
+	got, kerr := snapValueKey(snap)
+	if kerr != nil {
+		rep.fail("state/inconsistent", kerr.Error())
+		return
+	}
+	if want := w.M.valueKey(); got != want {
+		// UDP may lose a datagram even on the loopback. Effects the model does NOT predict are violations.
+		// A predicted effect that is missing is a violation only if it is systematic: every plain 80-byte
+		// control report arrived but a whole class (e.g. the over-long datagrams) did not.
+		extra := false
+		have := map[uint32]bool{}
+		for _, sl := range snap.Reports[1] {
+			have[sl.Index] = true
+			if w.M.Slots[1][sl.Index] == nil || w.M.Slots[1][sl.Index].value() != sl.Report.PowerOutput {
+				extra = true
+				rep.fail("transport/unexpected-effect", map[string]interface{}{"slot": sl.Index, "power": sl.Report.PowerOutput, "diff": firstDiff(got, want)})
+			}
+		}
+		if extra {
+			return
+		}
+		controlsOK := true
+		missing := map[string]int{}
+		total := map[string]int{}
+		for _, c := range cases {
+			if ok, _ := w.M.acceptable(c.b, w.Now); !ok && !(len(c.b) >= 80) {
+				continue
+			}
+			if len(c.b) < 80 {
+				continue
+			}
+			ts := binary.LittleEndian.Uint32(c.b[4:8])
+			if w.M.Slots[1][ts] == nil {
+				continue // not an accepted report
+			}
+			total[c.desc]++
+			if !have[ts] {
+				missing[c.desc]++
+				if c.desc == "valid 80 bytes" {
+					controlsOK = false
+				}
+			}
+		}
+		for cls, n := range missing {
+			if controlsOK && n == total[cls] {
+				rep.fail("transport/class-dropped/"+cls, map[string]interface{}{"missing": n, "of": total[cls], "controls_arrived": total["valid 80 bytes"]})
+			}
+		}
+		if len(rep.Violations) == 0 {
+			rep.Reasons["inconclusive: a datagram was lost on the loopback"]++
+		}
+		return
+	}
+	rep.Accepted = len(snap.Reports[1])
+	rep.Reasons["transport subset conforms"]++
+	rep.Samples = append(rep.Samples, fmt.Sprintf("%d datagrams through the real UDP socket, %d accepted", len(cases)+1, rep.Accepted+1))
+	return
 }
 
 type jobReport struct {
@@ -292,6 +443,9 @@ func c01Alphabet(w *stdWorld, full bool) []dgCase {
 }
 
 func c01RunJob(j c01Job) (rep *jobReport) {
+	if j.Transport {
+		return c01Transport()
+	}
 	rep = &jobReport{Reasons: map[string]int{}}
 	w, err := newStdWorld("c01")
 	if err != nil {
@@ -422,7 +576,7 @@ func init() {
 		var jobs []interface{}
 		for _, rot := range []int{0, 1} {
 			for _, d := range []int{0, 431, 432, 433, 2016, 3599, 3600, 3601, 3999} {
-				jobs = append(jobs, c01Job{rot, d, true})
+				jobs = append(jobs, c01Job{Rotations: rot, D: d, Full: true})
 			}
 		}
 		lo, hi := 3596, 3604
@@ -430,8 +584,9 @@ func init() {
 			lo, hi = 3590, 4040
 		}
 		for d := lo; d <= hi; d++ {
-			jobs = append(jobs, c01Job{1, d, false})
+			jobs = append(jobs, c01Job{Rotations: 1, D: d})
 		}
+		jobs = append(jobs, c01Job{Transport: true})
 		return runJobCheck(run, "c01", jobs, "datagrams injected into a live real server; distinct = (model verdict class) x configuration; non-trivial = datagrams that the model accepts or that fail exactly one clause of the acceptance predicate")
 	}
 }
